@@ -1,6 +1,7 @@
 package main
 
 import (
+	"regexp"
 	"bytes"
 	"context"
 	"crypto/sha256"
@@ -53,7 +54,13 @@ func (e *Exec) queryText(o *Obligation, withModel bool) string {
 		b.WriteString(a)
 		b.WriteByte('\n')
 	}
+	anc := e.pcAncestors(o.PC.S)
 	for i := 0; i < o.NAssume && i < len(e.assumptions); i++ {
+		// an assumption made under a path condition that is not part of the goal's path condition belongs
+		// to another branch: it cannot help (dropping assumptions is always sound)
+		if g := e.assumeGuard[i]; g != "" && anc != nil && strings.HasPrefix(g, "pc!") && !anc[g] {
+			continue
+		}
 		b.WriteString(e.assumptions[i])
 		b.WriteByte('\n')
 	}
@@ -199,4 +206,70 @@ func solveAll(e *Exec, obls []*Obligation, dir string, timeoutS, seed int, all b
 	}
 	wg.Wait()
 	return out
+}
+
+var pcNameRe = regexp.MustCompile(`pc![0-9]+`)
+
+// pcAncestors: the set of named path conditions the given path condition is built from.
+func (e *Exec) pcAncestors(pc string) map[string]bool {
+	if e.pcParents == nil {
+		e.pcParents = map[string][]string{}
+		for _, d := range e.smt.decls {
+			if strings.HasPrefix(d.Name, "pc!") {
+				e.pcParents[d.Name] = pcNameRe.FindAllString(d.Text[len("(define-fun "+d.Name):], -1)
+			}
+		}
+	}
+	roots := pcNameRe.FindAllString(pc, -1)
+	if len(roots) == 0 {
+		return nil
+	}
+	out := map[string]bool{}
+	var visit func(string)
+	visit = func(n string) {
+		if out[n] {
+			return
+		}
+		out[n] = true
+		for _, p := range e.pcParents[n] {
+			visit(p)
+		}
+	}
+	for _, r := range roots {
+		visit(r)
+	}
+	return out
+}
+
+// quickValid asks one solver, with a short time-out, whether cond holds at this point.  It is used
+// only to simplify the encoding (e.g. "this append never reallocates"); an inconclusive answer
+// keeps the general encoding.
+func (e *Exec) quickValid(st *State, cond Term, ms int) bool {
+	if e.quant > 0 || e.noQuick {
+		return false
+	}
+	o := &Obligation{Name: "quick", Kind: "quick", PC: st.pc, Goal: cond, NAssume: len(e.assumptions), NDecl: len(e.smt.decls)}
+	saved := e.pcParents
+	e.pcParents = nil // definitions grow during generation
+	text := e.queryText(o, false)
+	e.pcParents = saved
+	e.pcParents = nil
+	f, err := os.CreateTemp("", "govc-quick-*.smt2")
+	if err != nil {
+		return false
+	}
+	defer os.Remove(f.Name())
+	f.WriteString(text)
+	f.Close()
+	ctx, cancel := context.WithTimeout(context.Background(), time.Duration(ms+500)*time.Millisecond)
+	defer cancel()
+	out, _ := exec.CommandContext(ctx, "z3-new", fmt.Sprintf("-t:%d", ms), f.Name()).Output()
+	for _, l := range strings.Split(string(out), "\n") {
+		l = strings.TrimSpace(l)
+		if l == "" || strings.HasPrefix(l, "WARNING") {
+			continue
+		}
+		return l == "unsat"
+	}
+	return false
 }
